@@ -27,7 +27,8 @@ key of a member that is not in QUAL, or whose valid points are held, polluted th
 `fix4 = false` (phase 4 checked the completeness of a shares message against a group state that
 changed while the messages were processed), `fixOrder = false` (phases 5/9 marked inactive members
 before resolving the accusations: a convicted member that was also silent ended IA for the judges
-but DQ for its accuser).
+but DQ for its accuser), `fixAccept = false` (a member ignored the accusations published by a member
+it had just disqualified on its own in the same phase, while the others resolved them).
 -/
 namespace KeepVerif.C01
 
@@ -148,6 +149,8 @@ structure St where
   fixAbort : Bool := true  -- a missing public key of the accuser/revealer disqualifies it instead of aborting
   fix4 : Bool := true      -- phase 4 validates shares messages against the members operating at its beginning
   fixOrder : Bool := true  -- phases 5 and 9 resolve the accusations before marking inactive members
+  fixAccept : Bool := true -- accusations are accepted from every member operating before the own verification
+  accusers : List Nat := []  -- snapshot taken in phases 4 and 8 between inactivity marking and verification
   status : Status := .ok
   ia : List Nat := []
   dq : List Nat := []
@@ -187,8 +190,19 @@ def accept (st : St) (m : Msg) : Bool :=
   let h := m.hdr
   decide (h.sender ≠ st.id) && decide (h.author = h.sender) && isOperating st h.sender && h.sessOk
 
+/-- `shouldAcceptAccusationMessage`: in the accusation phases 4 and 8 the sender must have been
+    operating before the member's own verification (`accusers` snapshot). -/
+def acceptAccusation (st : St) (m : Msg) : Bool :=
+  let h := m.hdr
+  decide (h.sender ≠ st.id) && decide (h.author = h.sender) && st.accusers.contains h.sender && h.sessOk
+
+/-- admission rule of the state of phase `ph` -/
+def admits (ph : Nat) (st : St) (m : Msg) : Bool :=
+  if st.fixAccept && (ph = 4 || ph = 8) then acceptAccusation st m else accept st m
+
 /-- `Receive` of the active state. -/
-def receive (st : St) (m : Msg) : St := if accept st m then { st with inbox := st.inbox ++ [m] } else st
+def receive (ph : Nat) (st : St) (m : Msg) : St :=
+  if admits ph st m then { st with inbox := st.inbox ++ [m] } else st
 
 /-- `InactiveMemberFilter.FlushInactiveMembers` with the given active senders. -/
 def markInactive (st : St) (active : List Nat) : St :=
@@ -245,6 +259,7 @@ def phase4 (st : St) : St × List Msg :=
   let shs := st.prev.filterMap (fun m => match m with | .shares h x => some (h.sender, x) | _ => none)
   let cms := st.prev.filterMap (fun m => match m with | .comms h x => some (h.sender, x) | _ => none)
   let st := markInactive st ((shs.map (·.1)).filter (fun s => (cms.map (·.1)).contains s))
+  let st := { st with accusers := (members st.n).filter (isOperating st) }
   let dsh := dedup (·.1) shs
   let st := dsh.foldl (fun s (sender, x) => { s with evShares := putNew sender x s.evShares }) st
   let snap := st
@@ -364,6 +379,7 @@ def phase7 (st : St) : St × List Msg :=
 def phase8 (st : St) : St × List Msg :=
   let msgs := st.prev.filterMap (fun m => match m with | .points h x => some (h.sender, x) | _ => none)
   let st := markInactive st (msgs.map (·.1))
+  let st := { st with accusers := (members st.n).filter (isOperating st) }
   let (st, acc) := (dedup (·.1) msgs).foldl (fun (sa : St × List (Nat × Nat)) (sender, ps) =>
     let (s, acc) := sa
     if s.status ≠ .ok then sa else
@@ -478,6 +494,7 @@ structure Cfg where
   fixAbort : Bool := true
   fix4 : Bool := true
   fixOrder : Bool := true
+  fixAccept : Bool := true
 
 /-- coefficient injected by the harness for member `i`, slot `j` (see `gjk.Coef`) -/
 def coef (q seed i j : Nat) : Nat :=
@@ -558,7 +575,7 @@ def applyScript (cfg : Cfg) (st : St) (ph : Nat) (out : List Msg) : List Msg :=
 
 def initSt (cfg : Cfg) (i : Nat) : St :=
   { id := i, n := cfg.n, t := cfg.t, q := cfg.q, fixed := cfg.fixed, fix11 := cfg.fix11, fixKey := cfg.fixKey,
-    fixDedup11 := cfg.fixDedup11, fixAbort := cfg.fixAbort, fix4 := cfg.fix4, fixOrder := cfg.fixOrder,
+    fixDedup11 := cfg.fixDedup11, fixAbort := cfg.fixAbort, fix4 := cfg.fix4, fixOrder := cfg.fixOrder, fixAccept := cfg.fixAccept,
     coefA := (List.range (cfg.t + 1)).map (fun k => coef cfg.q cfg.seed i k),
     coefB := (List.range (cfg.t + 1)).map (fun k => coef cfg.q cfg.seed i (cfg.t + 1 + k)) }
 
@@ -606,7 +623,7 @@ def runPhase (cfg : Cfg) (sts : List St) (ph : Nat) : List St :=
   let wires := res.flatMap (fun (st, out) => if alive st then applyScript cfg st ph out else [])
   sts.map (fun st =>
     if !alive st then st else
-    let st := (deliveryOrder cfg st.id ph wires).foldl receive { st with inbox := [] }
+    let st := (deliveryOrder cfg st.id ph wires).foldl (receive ph) { st with inbox := [] }
     { st with prev := st.inbox, inbox := [] })
 
 def run (cfg : Cfg) : List St :=
